@@ -1430,22 +1430,7 @@ where
                 // would change once the directory has been created, if a
                 // symlinked directory leads to it.)
                 let mut buf = PathBuf::new();
-                for c in dname.components() {
-                    match c {
-                        path::Component::CurDir => {}
-                        path::Component::ParentDir => {
-                            buf.pop();
-                        }
-                        c => {
-                            buf.push(c);
-                            match buf.canonicalize() {
-                                Ok(real) => buf = real,
-                                Err(e) if e.kind() == io::ErrorKind::NotFound => {}
-                                Err(e) => return Err(e),
-                            }
-                        }
-                    }
-                }
+                resolve_existing(&mut buf, &dname, 0)?;
                 buf
             }
             Err(e) => return Err(e),
@@ -1453,6 +1438,42 @@ where
         buf.push(fname);
         Ok(Cow::Owned(buf))
     }
+}
+
+/// The number of dangling symbolic links [`resolve_existing`] follows for one
+/// path before it gives up (the kernel's own limit for links that exist).
+const MAX_DANGLING_LINKS: u32 = 40;
+
+/// Walks `p` from `buf`, one component at a time: what exists is resolved
+/// to its canonical name, what does not exist is kept as spelled.  A symbolic
+/// link whose destination does not exist (yet) is still followed, so that
+/// the name does not change once the destination has been created.
+fn resolve_existing(buf: &mut PathBuf, p: &Path, depth: u32) -> io::Result<()> {
+    for c in p.components() {
+        match c {
+            path::Component::CurDir => {}
+            path::Component::ParentDir => {
+                buf.pop();
+            }
+            c => {
+                buf.push(c);
+                match buf.canonicalize() {
+                    Ok(real) => *buf = real,
+                    Err(e) if e.kind() == io::ErrorKind::NotFound => {
+                        if let Ok(dest) = fs::read_link(&buf) {
+                            if depth >= MAX_DANGLING_LINKS {
+                                return Err(e);
+                            }
+                            buf.pop();
+                            resolve_existing(buf, &dest, depth + 1)?;
+                        }
+                    }
+                    Err(e) => return Err(e),
+                }
+            }
+        }
+    }
+    Ok(())
 }
 
 /// Probes used by an external verification harness (feature `zombiezen_redo_rs_verif`).
